@@ -54,6 +54,7 @@ func round12(c *Ctx, r *Report, p string) {
 		directiveArgsNotKeywords(c, r, "C06.R2.directive-args-not-keywords")
 		digitShortcutTestsWhatItPrints(c, r, "C06.R5.digit-shortcut")
 	case "C20":
+		dedupLeavesScratchEmpty(c, r, "C20.R3.dedup-leaves-scratch-empty")
 		foldNotEscapeConditioned(c, r, "C20.R4.fold-not-escape-conditioned")
 	}
 }
